@@ -73,3 +73,28 @@ fn a_class_named_as_a_type_inside_an_argument_gets_no_hint_of_its_own() {
         .map(|h| (usize::from(h.position), h.label.trim_matches(|c: char| c == ':' || c == '=' || c.is_whitespace()).to_string())).collect();
     assert_eq!(got, vec![(t.find("!cast").unwrap(), "f".to_string())], "WITNESS inlay hints of {t:?}: the only positional argument binds Outer's parameter f");
 }
+#[test]
+fn hover_on_variables_defsets_and_multiclasses() {
+    let t = "class A { int width = 1; }\n// the answer\ndefvar answer = 42;\ndefvar twice = !add(answer, answer);\n// a set of A\ndefset list<A> Group = { def g0 : A; }\ndefvar all = Group;\n// makes two\nmulticlass Pair<int n> { def _l : A; def _r : A; }\ndefm p : Pair<1>;\nclass B : A { int w2 = width; }\n";
+    let (a, ids) = analysis(&[("/main.td", t)]);
+    // (offset of a use, words the signature must show in this order, doc lines, text at the go-to-definition target)
+    let cases: Vec<(u32, Vec<&str>, Vec<&str>, &str)> = vec![
+        (at(t, "!add(answer", 5), vec!["int", "answer"], vec!["the answer"], "defvar answer"),
+        (at(t, "= Group;", 2), vec!["list", "A", "Group"], vec!["a set of A"], "list<A> Group"),
+        (at(t, "defm p : Pair", 9), vec!["multiclass", "Pair"], vec!["makes two"], "multiclass Pair"),
+        (at(t, "int w2 = width", 9), vec!["int", "A", "width"], vec![], "int width"),
+    ];
+    for (off, sig, doc, name) in cases {
+        let pos = FilePosition::new(ids[0], off.into());
+        let h = a.hover(pos).unwrap_or_else(|| panic!("WITNESS no hover at offset {off} of {t:?}"));
+        let words: Vec<&str> = h.signature.split(|c: char| !(c.is_alphanumeric() || c == '_')).filter(|w| !w.is_empty()).collect();
+        let mut it = words.iter();
+        assert!(sig.iter().all(|w| it.any(|x| x == w)), "WITNESS hover signature {:?} at offset {off} of {t:?} does not show {sig:?} in this order", h.signature);
+        let lines: Vec<String> = h.document.as_deref().unwrap_or("").lines().map(|l| l.trim().to_string()).filter(|l| !l.is_empty()).collect();
+        assert_eq!(lines, doc, "WITNESS hover doc comment at offset {off} of {t:?}");
+        let target = a.goto_definition(pos).unwrap_or_else(|| panic!("WITNESS no definition at offset {off} of {t:?}"));
+        // `name` = the declaration, its last word is the declaring identifier
+        let want = t.find(name).unwrap() + name.rfind(' ').unwrap() + 1;
+        assert_eq!(usize::from(target.range.start()), want, "WITNESS definition target at offset {off} of {t:?} is not the declaring identifier");
+    }
+}
